@@ -12,19 +12,19 @@ def hook_commits():
 
 CHECKS = {
  "C01": dict(level="model_checking", engine="E-HIST", design="5/C01",
-   technique="explicit-state BFS over the real dhcp::handle_pkt + SQLite store (exact-state dedup) from 5 root stores, oracle on every transition; plus every history of length 3 (thorough 4) on one never-reopened Pool (no dedup); plus a consequence search wherever the store diverges from what the clients were told",
+   technique="explicit-state BFS over the real dhcp::handle_pkt + SQLite store (exact-state dedup) from 5 root stores, oracle on every transition; plus every history of length 3 (thorough 4) on one never-reopened Pool (no dedup); plus a consequence search wherever the store diverges from what the clients were told; plus narrow-deep histories (one pool, 2 clients, depth 7/9), histories on stores upgraded from the previous release's format by the real Pool, and a store-locked deviation (SQLITE_BUSY during any one message)",
    text="Every history over the message/config/clock alphabet up to the completed depth is executed on the real handler and real SQLite store; the double-lease oracle is evaluated on every transition, each on a freshly opened store (restart between any two messages).",
-   note="Bounds: <=3 clients, <=5 configurations with 1-2 address pools, depth as reported, from 5 roots (the empty store and 4 stores that long histories reach: 24 h leases mid-life and expired, two clients). Trusted: SQLite, the clock interposition, time-shift invariance of pool.rs (argued in DESIGN.md 2)."),
+   note="Bounds: <=3 clients, <=8 configurations with 1-2 address pools, depth as reported, from 9 roots (the empty store and 8 stores that long histories reach: 24 h leases mid-life and expired, two clients, empty / 255-octet identities, one client with six leases, foreign holders, rows expired for weeks and months; the 8 enter the search one level late). Every store is created from the SQL the real Pool writes on a fresh file. Trusted: SQLite, the clock interposition, time-shift invariance of pool.rs (argued in DESIGN.md 2)."),
  "C09": dict(level="model_checking", engine="E-HIST", design="5/C09",
-   technique="explicit-state BFS over the real dhcp::handle_pkt + SQLite store, keep-your-address and exhaustion oracles on every transition; long-lived histories on one Pool; told-record consequence search (reply-level clauses judged against what clients were told when the store mis-records it)",
+   technique="explicit-state BFS over the real dhcp::handle_pkt + SQLite store, keep-your-address and exhaustion oracles on every transition; long-lived histories on one Pool; told-record consequence search (reply-level clauses judged against what clients were told when the store mis-records it); alphabet includes REQUESTs selecting this server (option 50 / ciaddr) and a foreign server; narrow-deep and upgraded-store histories as for C01",
    text="Same search as C01; on every transition the reply (or refusal) is compared with the set of unexpired leases the client holds inside the pool it is served from, the pool being stated independently by the harness per configuration.",
-   note="Pool membership per (config, interface, client) is hand-stated in the harness for the 5 alphabet configurations; general policy evaluation is C02/C11's subject."),
+   note="Pool membership per (config, interface, client) is hand-stated in the harness for the alphabet configurations (K1-K8); general policy evaluation is C02/C11's subject."),
  "C10": dict(level="model_checking", engine="E-HIST", design="5/C10",
-   technique="explicit-state BFS over the real dhcp::handle_pkt + SQLite store with renewal-rhythm clock steps and configurations whose policies try to set option 51/54 (K6/K7), lease-time oracle on every reply; long-lived histories on one Pool",
+   technique="explicit-state BFS over the real dhcp::handle_pkt + SQLite store with renewal-rhythm clock steps and configurations whose policies try to set option 51/54 (K6/K7), lease-time oracle on every reply; long-lived histories on one Pool; client-requested lease times (option 51 below / inside / above the bounds); store-locked deviation: every message on every kept state while a second connection holds a write / exclusive lock on the (file-backed) store, oracle record-missing",
    text="Every OFFER/ACK produced anywhere in the explored history space is checked for option 51, its bounds and its agreement with the recorded row.",
    note="Bounds 300..86400 are the defaults; no configuration key reaches minlease/maxlease in this tree. The 24 h cap is only reachable after ~9 doublings, so the search also starts from stores holding long leases (deep roots) and has 30000 s / 100000 s clock steps."),
  "C13": dict(level="model_checking", engine="E-HIST", design="5/C13",
-   technique="explicit-state BFS plus an exhaustive probe set (all 256 message types x server-id shapes x interfaces x clients, header variants, ciaddr set/unset for the types that read it) applied to every reachable state up to the probe depth",
+   technique="explicit-state BFS plus an exhaustive probe set (all 256 message types x server-id shapes x interfaces x clients, header variants, ciaddr set/unset for the types that read it) applied to every reachable state up to the probe depth; roots include rows expired for weeks and months (only a new lease on the same address may touch a row)",
    text="Every reachable store up to the probe depth is hit with every message-type value, malformed type options and server-id shapes; replies only for DISCOVER/REQUEST-for-us, unchanged store otherwise, echo fields and server identifier on every reply.",
    note="A server-identifier option whose length is not 4 is treated as don't-care (the statement does not define it)."),
  "C12": dict(level="exploration", engine="E-ENUM + E-WIRE", design="5/C12",
@@ -32,65 +32,65 @@ CHECKS = {
    text="The flag predicate is decided for every 16-bit value; frame construction for every payload length; encode/decode for the full product of boundary header/field lengths and all option sets of size <=3 over boundary value lengths (0..1500), each encoding also read by an independent decoder, plus hand-encoded repeated/zero-length/padded option wire images.",
    note="The destination choice and framing call inline in DhcpService::recvdhcp are executed by the wire part (real frames on a veth pair); relayed replies (giaddr) and fragmented frames are not. A transmitted UDP checksum 0 is accepted."),
  "C14": dict(level="exploration", engine="E-ENUM", design="5/C14",
-   technique="bounded-exhaustive enumeration of structured messages (name-sharing patterns, every first-written offset around 0x4000 and 0xffxx) and single-octet-exhaustive mutations of their encodings, through the real parser/serialiser and an independent strict decoder",
+   technique="bounded-exhaustive enumeration of structured messages (name-sharing patterns, every first-written offset around 0x4000 and 0xffxx) and single-octet-exhaustive mutations of their encodings, through the real parser/serialiser and an independent strict decoder; families: single, multi, rdata-ref, chain (pointer chains 1..127), octets (every octet value 0..255 in names up to 255 wire octets), boundary, header, wire-shapes (several OPT records)",
    text="Every structured message of the grammar and every accepted mutated byte string is encoded by the real serialiser, decoded by the real parser (must equal) and by an independent strict decoder (counts, no trailing octets, pointers strictly backwards and < 0x4000, RDLENGTH = typed rdata).",
-   note="Names over 3 labels {a,b,63x'x'} up to depth 3; messages up to 65535 octets only in the boundary family; the 255-octet name limit is recorded, not judged."),
+   note="Names over 3 labels {a,b,63x'x'} up to depth 3, plus one-octet-label chains and names of a single repeated octet value; messages up to 65535 octets only in the boundary family; the 255-octet name limit is recorded, not judged."),
  "C04": dict(level="exploration", engine="E-ENUM + E-NET", design="5/C04",
-   technique="bounded-exhaustive enumeration of (size limit x full-size delta x message family) through the real serialise_with_size, judged by an independent strict decoder",
+   technique="bounded-exhaustive enumeration of (size limit x full-size delta x message family) through the real serialise_with_size, judged by an independent strict decoder; end to end against the live service (advertised sizes x reply sizes x UDP/TCP); upstream-TCP episodes (truncated UDP answer, TCP retry answered late or closed after D s, then the same question over TCP): every NOERROR reply that fits is complete and not marked truncated",
    text="serialise_with_size is executed for every limit 512..4096 (and 8 larger limits up to 65535) with the full message sized limit+delta for every delta around the limit, over 6 message families; each output is decoded strictly (counts = contents, no trailing octets), must be <= limit, a record-prefix of the full message, TC iff a record is missing, complete when it fits.",
    note="Two parts: function level (serialise_with_size) and end to end against the live service (E-NET: advertised sizes x reply sizes x UDP/TCP x 3 answer shapes). OPT-only omission is don't-care."),
  "C05": dict(level="exploration", engine="E-ENUM", design="5/C05",
-   technique="bounded-exhaustive byte-string enumeration (all strings <=3 octets; seeds x every offset x all 256 values; all marked-field pairs x boundary values; every truncation) through the real decoders and receive-path code, panic hook + overflow checks on",
+   technique="bounded-exhaustive byte-string enumeration (all strings <=3 octets; seeds x every offset x all 256 values; all marked-field pairs x boundary values; every truncation) through the real decoders and receive-path code, panic hook + overflow checks on; live service: hostile datagrams with a valid query queued right behind, and upstream-TCP episodes (well-formed answers at a hostile time: late by D s, or the connection closed) followed by further queries that must be answered",
    text="Every network-facing decoder plus the code its receive path runs on the decoded value (handle_pkt, option logging, reply framing; DNS accessors used by listener, cache and upstream-result paths; LLDP TLV logging) is run on the whole enumerated input set; any panic/overflow/out-of-bounds is a violation; afterwards each handler must still answer a valid request.",
    note="Runs in a supervised child process: an abort (stack overflow) or a hang (120 s per input) is reported as a violation naming the input. The LLDP 14-octet frame skip and socket loops are not executed. Log statements are formatted (trace logger installed)."),
  "C17": dict(level="exploration", engine="E-ENUM + E-WIRE", design="5/C17",
-   technique="bounded-exhaustive enumeration of interface configurations (full product inside each option group x top-level defaults x 3 base contexts) through the real YAML loader, builder and serialiser, decoded by an independent RFC 4861/8106/8781/8910 decoder and compared with expected(config); plus E-WIRE: the real RaAdvService on a veth pair under three default-route environments, solicited with real RS frames, advertisements captured on the wire and judged by the same decoder",
+   technique="bounded-exhaustive enumeration of interface configurations (full product inside each option group x top-level defaults x 3 base contexts) through the real YAML loader, builder and serialiser, decoded by an independent RFC 4861/8106/8781/8910 decoder and compared with expected(config); plus E-WIRE: the real RaAdvService on a veth pair under three default-route environments, solicited with real RS frames, advertisements captured on the wire and judged by the same decoder; and run-time address histories: every sequence of ip addr add/del events (depth 2, thorough 4) on the advertising interface while the service runs x 3 configurations, a solicitation answered after every event ($self6 and implied prefixes must follow the interface as it is now)",
    text="Every configuration of the grammar is loaded by the real loader, built and serialised by the real code and decoded by an independent decoder that enforces 8-octet alignment, zero reserved fields and zero prefix bits beyond the length; decoded values must equal what the configuration means, unrepresentable values may only be rejected or clamped.",
    note="Function part: the hook verif_build repeats the two small matches of build_announcement that pick mtu/lifetime from netinfo; the wire part executes the real build_announcement, handle_solicit and raw transmit. Unsolicited (timer-driven) advertisements are not exercised. Default RDNSS/DNSSL lifetimes are don't-care."),
  "C03": dict(level="exploration", engine="E-NET", design="5/C03",
-   technique="exhaustive enumeration of fault-free (query shape x upstream reply shape) exchanges executed against the live in-process DnsService on loopback under a paused clock, judged by an independent DNS decoder",
+   technique="exhaustive enumeration of fault-free (query shape x upstream reply shape) exchanges executed against the live in-process DnsService on loopback under a paused clock, judged by an independent DNS decoder; pairs of exchanges differing in one question component; refill histories with changing TTLs; response-code family (0..23 + boundaries of the extended bits, thorough all 4096) x client EDNS none/plain/DO",
    text="Each execution starts a fresh real DnsService, sends one real query over UDP or TCP, lets a scripted upstream answer with an independently encoded reply and compares what the client receives, record for record and section for section, with what the upstream sent.",
-   note="One exchange per execution, no faults (faults are C07's). A relayed REFUSED over UDP that the REFUSED limiter suppresses is not judged here (C16). [::1] listener and client."),
+   note="One to three exchanges per execution, no faults (faults are C07's). A relayed REFUSED over UDP that the REFUSED limiter suppresses is not judged here (C16). [::1] listener and client."),
  "C07": dict(level="model_checking", engine="E-NET", design="5/C07",
-   technique="deviation-bounded exhaustive exploration (stateless DFS with prefix replay, iterated bounds) of environment event schedules against the live in-process DnsService under a paused clock; choice points: client sends, upstream deliveries and fault variants, ticks, upstream query id and retry jitter (hooks)",
-   text="For 10 scenarios (1-6 queries in flight, UDP/TCP/UDP-pushed-to-TCP, same and different names) every schedule with at most the stated number of deviations (drop, hold until retransmission, duplicate, foreign id, TC, non-FIFO, TCP frame in two parts, two TCP replies coalesced in one write, upstream close, id collision, max jitter, delay) is executed to a 130 s virtual horizon; each query must get exactly one reply from the address it was sent to, carrying the answer scripted for its own question, SERVFAIL only when the environment really lost its replies. Plus all listener families x client families x transports, and the pure in_addr conversion over 625 addresses.",
+   technique="deviation-bounded exhaustive exploration (stateless DFS with prefix replay, iterated bounds) of environment event schedules against the live in-process DnsService under a paused clock; choice points: client sends, upstream deliveries and fault variants, ticks, upstream query id and retry jitter (hooks); plus scripted families: listener x client address families, big answers (UDP size > datagram), uptime (0..110 h of silence), upstream-TCP episodes (answer late by 0..118 s or connection closed, then follow-ups)",
+   text="For 11 scenarios (1-6 queries in flight, UDP/TCP/UDP-pushed-to-TCP, same and different names) every schedule with at most the stated number of deviations (drop, hold until retransmission, duplicate, foreign id, TC, non-FIFO, TCP frame in two parts, two TCP replies coalesced in one write, upstream close, id collision, max jitter, delay) is executed to a 130 s virtual horizon; each query must get exactly one reply from the address it was sent to, carrying the answer scripted for its own question, SERVFAIL only when the environment really lost its replies. Plus all listener families x client families x transports, and the pure in_addr conversion over 625 addresses.",
    note="Await-granularity schedules on one worker thread; <=6 queries in flight (deviation bound lower for the largest scenarios); 100 ms tick quantum. Harness-side exchange bookkeeping decides when SERVFAIL is acceptable."),
  "C15": dict(level="exploration", engine="E-NET", design="5/C15",
-   technique="exhaustive enumeration of written route tables (suffix subsets x partitions into routes x types x every route order x every suffix order) each served by a live in-process DnsService with one scripted upstream per forward route, queried with a fixed name set x RD",
+   technique="exhaustive enumeration of written route tables (suffix subsets x partitions into routes x types x every route order x every suffix order) each served by a live in-process DnsService with one scripted upstream per forward route, queried with a fixed name set x RD; octet folding (a suffix containing octet c asked with partner octets d: forwarded iff equal up to ASCII letter case); histories in which an earlier NXDOMAIN / answer of one route must not decide a later question of another route",
    text="For every written table the rcode seen by the client and which upstream (if any) received the query are compared with an independent longest-whole-label-suffix, ASCII-case-insensitive reference; since every permutation of the same table is generated, permutation invariance is decided too.",
    note="TCP clients (REFUSED over UDP is the limiter's subject). The same suffix in two routes is don't-care and not generated."),
  "C08": dict(level="exploration", engine="E-ENUM + E-NET", design="5/C08",
-   technique="bounded-exhaustive enumeration of ACL rule lists (through the real YAML loader) x clients x operations against an independent first-match reference; Prefix::contains for every prefix length against bit arithmetic; plus the live DNS service and live HTTP API under 12 rule lists",
+   technique="bounded-exhaustive enumeration of ACL rule lists (through the real YAML loader) x clients x operations against an independent first-match reference; Prefix::contains for every prefix length against bit arithmetic; plus the live DNS service (RD set and clear) and live HTTP API under 12 rule lists, HTTP keep-alive sequences (every ordered pair of paths on one connection)",
    text="require_permission is decided for every rule list of length <=3 over a 180-rule alphabet (lengths 4-6 over a sub-alphabet) x 25 clients x 4 operations; the entry points are exercised for real: DNS over TCP from 4 source addresses (refused => upstream saw nothing, cached answer not served) and HTTP over v4, v6, v4-mapped and unix-socket clients x 4 paths.",
    note="A plain IPv4 client against an IPv6 prefix that merely covers ::ffff:0:0/96 (e.g. ::/0) is don't-care. Unknown HTTP paths may answer 403 or 404."),
  "C16": dict(level="model_checking", engine="E-HIST-style + E-NET", design="5/C16",
-   technique="exhaustive enumeration of arrival/advance histories on the real IpRateLimiter under the virtual clock (volume-bound and idle-grant oracles on every history), plus the live service: every arrival/advance history of length <=3 (thorough 4) over three reply sizes x EDNS with REFUSED datagrams counted and sized at the client and every window judged in octets, three long volume patterns, and the full cookie matrix",
+   technique="exhaustive enumeration of arrival/advance histories on the real IpRateLimiter under the virtual clock (volume-bound and idle-grant oracles on every history), plus the live service: every arrival/advance history of length <=3 (thorough 4) over three reply sizes x EDNS with REFUSED datagrams counted and sized at the client and every window judged in octets, three long volume patterns, the full cookie matrix, forged cookies, a new source port per query; and overlapping checks: K tasks (1, 2, 16; thorough 3, 8) call the real IpRateLimiter::check for one source and yield between check and charge (tokio cooperative budget), every history of 3 (thorough 4) rounds x cost x gap, window bound with the overdraft term",
    text="Every history up to the stated depth over an alphabet derived from the limiter's own constants is executed on the real limiter; on the live service REFUSED datagrams are counted and sized at the client, and a server cookie is presented under every combination of client cookie, source address, server address, 0/1/2 key rotations and cookie length with the source's bucket emptied first, so only an exemption can produce a reply.",
-   note="Single-threaded: the read-lock/write-lock window between check and deplete under a multi-threaded runtime is not explored. Rotation is lazy; a silent gap over several periods is don't-care."),
+   note="The read-lock/write-lock window between check and deplete is opened at await granularity only (one thread); overlapping grants overdraw a bucket by (K-1) x cost, which is owed afterwards: the bound of that part carries the term. Rotation is lazy; a silent gap over several periods is don't-care."),
  "C06": dict(level="model_checking", engine="E-ENUM (paused clock) + E-NET", design="5/C06",
-   technique="exhaustive enumeration of (TTL vector x elapsed time x probe key) through the real cache functions under tokio's paused clock, plus explicit event sequences (ask, advance, ask) on the live service with upstream queries counted",
+   technique="exhaustive enumeration of (TTL vector x elapsed time x probe key) through the real cache functions under tokio's paused clock, plus explicit event sequences (ask, advance, ask) on the live service with upstream queries counted; response codes NOERROR/SERVFAIL/NXDOMAIN/REFUSED; negative answers with SOA records (MINIMUM below/at/above the TTL); re-insertion histories (two insertions under one key)",
    text="For every TTL vector of the grammar the real calculate_expiry/insert/get_entry/expire are driven at 8 instants around the expiry with 7 probe keys, before and after an expiry sweep: a hit requires the same key and elapsed <= min TTL, served TTLs = original - floor(elapsed), no wrap (overflow checks on). The live part asks the same question at +0, +1.5 s and just past expiry over UDP and TCP, class IN and CH, and varies each key component.",
    note="The hook's insert is unconditional like the private function; the 'only cache when lifetime > 0' rule is decided by the live part. Case variants of a name and the query's AD bit are don't-care."),
  "C18": dict(level="fault_enumeration", engine="E-HIST (history mode) + E-CRASH", design="5/C18",
-   technique="exhaustive kill-point enumeration (a child process dies before every write-class libc call SQLite issues, by symbol interposition) plus exhaustive history enumeration with a reopen-differential at every step (file-backed, and in memory over a wider alphabet), plus enumeration of v0/newer-version databases",
+   technique="exhaustive kill-point enumeration (a child process dies before every write-class libc call SQLite issues, by symbol interposition) plus exhaustive history enumeration with a reopen-differential at every step (file-backed, and in memory over a wider alphabet), plus enumeration of v0/newer-version databases; narrow-deep restart histories (4 operations, depth 8/10); final live-vs-reopened comparison after every history",
    text="Every write-class syscall of each history (set-up of a fresh store, upgrade of a v0 store, 1-4 colliding allocations) is a kill point; after each kill the file must reopen, hold exactly the state after j or j+1 acknowledged operations, and continue like the uninterrupted run. Restart equivalence is decided by comparing, at every message of every history, the long-lived store with a store reopened on a copy of its file.",
    note="Process kill, not power loss (the page cache survives). _exit before the call stands in for SIGKILL. Scratch files live in /dev/shm (tmpfs) and are removed."),
  "C20": dict(level="model_checking", engine="E-HIST + HTTP rig", design="5/C20",
-   technique="explicit-state BFS over handle_pkt to enumerate reachable lease stores, each read at boundary clocks through the real /metrics endpoint; plus exhaustive enumeration of host-name / client-identifier octets through real DISCOVERs and the real lease listing, parsed by a strict JSON parser",
+   technique="explicit-state BFS over handle_pkt to enumerate reachable lease stores, each read at boundary clocks through the real /metrics endpoint; plus exhaustive enumeration of host-name / client-identifier octets through real DISCOVERs and the real lease listing, parsed by a strict JSON parser; the first scrape after a store change made under the held pool mutex; a store upgraded from the previous format; leases carrying every other option code x lengths 0..4/255",
    text="Gauges are compared with the store for every reachable store of the search and every clock value at each row's expiry -1/+0/+1 (and the empty store after non-empty ones); the listing is requested from the real HTTP API over the unix control socket for stores holding one lease per enumerated host-name/identifier value and compared entry by entry with the rows.",
    note="The boundary instant is judged exactly as stated (expiry <= now is expired). The DhcpService is built by the verif_new hook (ephemeral UDP port instead of 67)."),
  "C02": dict(level="exploration", engine="E-ENUM + drain histories", design="5/C02",
-   technique="bounded-exhaustive enumeration of configurations (every prefix length x server/reserved address placement; policy trees over a 16-address universe) through the real YAML loader; every history of length 3 (thorough 4) across pool changes / interfaces / a reservation on one never-reopened Pool judged by the outside-pool oracle; pools observed by build_default_config and by draining the real handle_pkt with fresh clients until exhaustion, compared with an independent reference of the documented sets",
+   technique="bounded-exhaustive enumeration of configurations (every prefix length x server/reserved address placement; policy trees over a 16-address universe) through the real YAML loader; every history of length 3 (thorough 4) across pool changes / interfaces / a reservation on one never-reopened Pool judged by the outside-pool oracle; pools observed by build_default_config and by draining the real handle_pkt with fresh clients until exhaustion, compared with an independent reference of the documented sets; every tree drained with and without an outer pool (top-level addresses); several address sources in one policy in every key order",
    text="For the addresses form the computed pool must equal hosts - server - reserved for every prefix length; for policy trees every (tree, hardware address) pool is drained through the real handler and the set of addresses handed out must equal the documented pool (own addresses minus everything added by sub-policies, first matching sibling, condition-less policies apply iff a sub-policy does).",
    note="Don't-care: overlapping pools of sibling policies, the server's own address inside an explicit pool. Prefixes shorter than /10 are not materialised (resource use)."),
  "C19": dict(level="exploration", engine="E-ENUM", design="5/C19",
-   technique="bounded-exhaustive structural and byte-level enumeration of configuration texts derived from the shipped examples and a full-grammar skeleton, through the real loader (panic hook, overflow checks, watchdog); every accepted text is then served by the real handlers (DHCP, ACL, RA builder/serialiser, live DNS service for route variants)",
+   technique="bounded-exhaustive structural and byte-level enumeration of configuration texts derived from the shipped examples and a full-grammar skeleton, through the real loader (panic hook, overflow checks, watchdog); every accepted text is then served by the real handlers (DHCP, ACL, RA builder/serialiser, live DNS service for EVERY distinct route table the texts produce); name/text shapes at the wire limits for every scalar; pairs of huge durations",
    text="Every node of every skeleton document is replaced by 21 wrong-type/boundary values, every scalar by 12 duration shapes and case/spelling variants, every prefix-shaped scalar by every prefix length x 6 address forms, every entry removed or its key misspelt; every offset of the shipped texts is deleted or overwritten with each structural octet. The loader must return Ok or a non-empty Err; each accepted configuration is served (DISCOVER+REQUEST from 4 receiving addresses x 3 clients, 20 ACL decisions, RA per interface, one query per changed DNS route on the live service) without a panic.",
-   note="Texts implying an IPv4 pool over 2^20 addresses at load time are not loaded and pools over 2^20 are not served (memory exhaustion aborts, not claimed). A 60 s watchdog reports non-termination."),
+   note="Texts implying an IPv4 pool over 2^20 addresses at load time are not loaded and pools over 2^20 are not served (memory exhaustion aborts, not claimed). A 300 s watchdog reports non-termination; aborts are reported as violations by the supervisor. The live DNS pass runs in its own network namespace."),
  "C11": dict(level="exploration", engine="E-ENUM", design="5/C11",
-   technique="bounded-exhaustive enumeration of policy trees (all trees of depth <=2 / width <=2, depth-3 chains, width-3 sibling lists over a 7-condition alphabet; override chains over a 7-value apply alphabet) x requests, through the real YAML loader and the real handle_pkt, compared with an independent model of erbium.conf(5)",
+   technique="bounded-exhaustive enumeration of policy trees (all trees of depth <=2 / width <=2, depth-3 chains, width-3 sibling lists over a 7-condition alphabet; override chains over a 7-value apply alphabet) x requests, through the real YAML loader and the real handle_pkt, compared with an independent model of erbium.conf(5); other spellings of the top-level address list; option catalogue: every option a policy can name (65 names, codes 1..252) x 5 parameter request lists, value = RFC 2132/3397/3442 encoding iff requested",
    text="Each configuration is loaded by the real loader and asked with every request of the request alphabet (receiving address x hardware address x host name x parameter list x interface mtu/router); the reply's option map must equal the model's (first applying sibling, AND of conditions, condition-less policy applies iff a sub-policy does, outer then inner, null unsets, parameter-list gating, top-level and interface defaults with $self4).",
-   note="Marker options per depth make the applied node observable. Options 53/54/51, an empty search list sent empty vs absent, and netmask/broadcast under two different match-subnets are don't-care."),
+   note="Marker options per depth make the applied node observable. Options 53/54/51, an empty search list sent empty vs absent, and netmask/broadcast under two different match-subnets are don't-care. One known finding (apply-routes is not RFC 3442; see known_findings.json and DESIGN.md section 6): printed as KNOWN-FINDING, exit 0."),
 }
 
 NOT_YET = {
@@ -127,15 +127,15 @@ def main():
             "add_only": True,
         },
         "engines": [
-            {"name": "E-HIST", "path": "harness/src/ehist.rs", "serves_properties": ["C01", "C09", "C10", "C13", "C18", "C20"], "kind_free_text": "explicit-state BFS; transitions are calls of the real handler on the real SQLite store"},
-            {"name": "E-NET", "path": "harness/src/enet.rs", "serves_properties": ["C03", "C04", "C06", "C07", "C08", "C15", "C16"], "kind_free_text": "event-order exploration of the in-process DNS service on loopback under a paused tokio clock"},
+            {"name": "E-HIST", "path": "harness/src/ehist.rs", "serves_properties": ["C01", "C02", "C09", "C10", "C13", "C18", "C20"], "kind_free_text": "explicit-state BFS; transitions are calls of the real handler on the real SQLite store; long-lived path enumeration, upgraded stores, store-locked deviation"},
+            {"name": "E-NET", "path": "harness/src/enet.rs", "serves_properties": ["C03", "C04", "C06", "C07", "C08", "C15", "C16"], "kind_free_text": "event-order exploration of the in-process DNS service on loopback under a paused tokio clock (deviation-bounded DFS for C07; scripted exhaustive families and upstream-TCP episodes for the others)"},
             {"name": "E-CRASH", "path": "harness/src/ecrash.rs", "serves_properties": ["C18"], "kind_free_text": "kill-point enumeration at every SQLite write-class syscall"},
             {"name": "E-WIRE", "path": "harness/src/ewire.rs", "serves_properties": ["C12", "C17"], "kind_free_text": "the real DHCP and RA services on one end of a veth pair in a private network namespace, driven with real Ethernet frames from the other end; reply frames / advertisements captured and dissected"},
             {"name": "E-ENUM", "path": "harness/src/checks", "serves_properties": ["C02", "C05", "C08", "C11", "C12", "C14", "C17", "C19"], "kind_free_text": "bounded-exhaustive input/configuration enumeration against independent reference decoders/models"},
         ],
         "checks": checks,
         "not_applicable": na,
-        "notes": "One binary (harness/target/release/erbium-verif) with a sub-command per property; ./check rebuilds it against /repo's working tree first. Exit 2 = machinery failure, never a verdict. known_findings.json lists recorded/fixed defects.",
+        "notes": "One binary (harness/target/release/erbium-verif) with a sub-command per property; ./check rebuilds it against /repo's working tree first. Exit 2 = machinery failure, never a verdict. known_findings.json lists the 42 repaired defects (status fixed: suppress nothing) and one recorded defect (status known, C11 apply-routes).",
     }
     json.dump(m, open(os.path.join(ROOT, "MANIFEST.json"), "w"), indent=1)
     print("checks:", [c["property_id"] for c in checks], "not_applicable:", len(na))
